@@ -123,18 +123,20 @@ def lib_group(gspec, lib=None):
     return _lib_groups[k]
 
 
-def lib_params(pspec, lib=None):
+def lib_params(pspec, lib=None, cache=True):
+    """cache=False: a parameter set built for one session and dropped with it (applications
+    that build `_Params` per connection); the shipped singletons are always shared"""
     lib = lib or loader.load()
     _lib_params = lib._cache_params
     k = _key(pspec)
+    kind = pspec["group"]["kind"]
+    s = seeds_of(pspec)
+    if kind in lib.shipped and s == DEFAULT_SEEDS:
+        return lib.shipped[kind]
+    if not cache:
+        return lib.params._Params(lib_group(pspec["group"], lib), M=s["M"], N=s["N"], S=s["S"])
     if k not in _lib_params:
-        kind = pspec["group"]["kind"]
-        s = seeds_of(pspec)
-        if kind in lib.shipped and s == DEFAULT_SEEDS:
-            P = lib.shipped[kind]
-        else:
-            P = lib.params._Params(lib_group(pspec["group"], lib), M=s["M"], N=s["N"], S=s["S"])
-        _lib_params[k] = P
+        _lib_params[k] = lib.params._Params(lib_group(pspec["group"], lib), M=s["M"], N=s["N"], S=s["S"])
     return _lib_params[k]
 
 
